@@ -4,6 +4,7 @@ const char* sched_name(const void* addr, char* buf);            // canonical nam
 long long sched_value(const void* addr, unsigned long long v);   // canonical value of an atomic result
 void sched_on_end(const char* verdict);                          // prints the final summary line
 void sched_reset(unsigned long long seed, int policy, const int* prefix, int nprefix, long maxsteps, int spurious, long tickms, int split);
+void sched_set_devs(const int* steps, const int* threads, int n);   // sparse forced choices on top of the policy
 void sched_main_done();
 int sched_self();
 long sched_steps();
